@@ -18,6 +18,7 @@ import collections
 import copy
 
 from harness import lib_prefetch as lp
+from harness import lib_prefetch_values as lv
 
 PID = 'C15'
 TITLE = 'The prefetching generator protocol delivers the generator faithfully'
@@ -90,6 +91,8 @@ def gen_cases(ctx):
   yield from gen_failed_init(ctx)
   # ---- windows between an unlocked look at a flag / attribute and the lock: everybody else runs inside the gap
   yield from gen_windows(ctx)
+  # ---- value level: generators that RAISE / YIELD / RETURN exactly the values the protocol code special-cases
+  yield from gen_values(ctx)
   # ---- re-initialisation / stop / shutdown at a scheduler-chosen point
   m = 3000 if ctx.quick else 40000
   for _ in range(m):
@@ -221,14 +224,71 @@ def gen_windows(ctx):
           yield dict(prefetch=rng.choice([1, 2]), threads=ths, sched=spec(len(base) + 1, at))
 
 
+def gen_values(ctx):
+  """every special value read off the source (lib_prefetch_values.special_literals: exception classes named in isinstance /
+  except / raise, exceptions constructed to compare with, string / tuple constants of comparisons, None) in every ROLE —
+  the generator's failure, one of its elements, its return value — x batch size x how much precedes it"""
+  from harness.core import REPO
+  rng = ctx.rng
+  lit = lv.special_literals(REPO)
+  excs, plains = lv.derived_specials(lit), lv.plain_specials(lit)
+  k = 0
+  for t in excs + plains:
+    for role in ('raise', 'yield', 'return'):
+      if role == 'raise' and t[0] != 'exc':
+        continue
+      for batch in (1, 2, 3):
+        for npre in ((0, 3) if ctx.quick else (0, 1, 2, 3, 5)):
+          pre = [['int', 10 + j] for j in range(npre)]
+          k += 1
+          case = dict(stage='values', prefetch=1 + k % 3, batch=batch, mode=('inline', 'threaded')[k % 2], yields=pre,
+                      fin={'ret': [['int', 77]]}, role=role, special=t)
+          if role == 'raise':
+            case['fin'] = {'raise': t}
+          elif role == 'yield':
+            case['yields'] = pre + [t, ['int', 99]]
+          else:
+            case['fin'] = {'ret': [t]}
+          ctx.count('kind', f'values:{role}')
+          yield case
+  # a few mixed scripts
+  for _ in range(60 if ctx.quick else 1500):
+    ys = [rng.choice(plains + [['int', rng.randrange(100)]] * 3) for _ in range(rng.randrange(0, 6))]
+    fin = {'raise': rng.choice(excs)} if rng.random() < 0.5 else {'ret': [rng.choice(plains + excs)]}
+    ctx.count('kind', 'values:mixed')
+    yield dict(stage='values', prefetch=rng.choice([1, 2, 3]), batch=rng.choice([1, 2, 3, 5]),
+               mode=rng.choice(['inline', 'threaded']), yields=ys, fin=fin, role='mixed', special=None)
+
+
+def _is_values(case):
+  return case.get('stage') == 'values'
+
+
 def run_impl(case):
+  if _is_values(case):
+    return lv.run_values(case, timeout=4.0)
   return lp.run_real(case)
 
 
 model_requests = None
-model_requests_obs = lp.model_requests_obs
-model_obs = lp.model_obs
-compare = lp.compare
+
+
+def model_requests_obs(case, obs):
+  if _is_values(case):
+    return [lv.model_request(case)]
+  return lp.model_requests_obs(case, obs)
+
+
+def model_obs(case, resps):
+  if _is_values(case):
+    return lv.model_obs(case, resps[0])
+  return lp.model_obs(case, resps)
+
+
+def compare(obs, m):
+  if obs.get('stage') == 'values':
+    return lv.compare(obs, m)
+  return lp.compare(obs, m)
 
 
 # ------------------------------------------------------------------ the property, on the real run
@@ -297,6 +357,8 @@ def _after_shutdown(case, obs):
 
 
 def oracle(case, obs):
+  if _is_values(case):
+    return lv.oracle(case, obs)
   gens = _gens(case)
   ths, n = case['threads'], len(case['threads'])
   if obs['outcome'] not in ('done', 'deadlock'):
@@ -531,7 +593,14 @@ def _cover_windows(case, obs):
         _COV[W_NEXT_REPLACED] += 1
 
 
+_COV_VAL = collections.Counter()
+
+
 def nontrivial(case, obs):
+  if _is_values(case):
+    if case.get('special') is not None:
+      _COV_VAL[(case['role'], lv.json.dumps(case['special']))] += 1
+    return bool(case['yields']) or 'raise' in case['fin']
   ths = case.get('threads') or []
   if 'trace' in obs and (any(_bad_build(p) for p in ths) or case.get('sched', {}).get('kind') == 'hold'):
     w = oracle(case, obs)
@@ -546,6 +615,11 @@ def nontrivial(case, obs):
 def finding(case, what):
   """C15-F27: the protocol has no session identity — a client whose generator is replaced between two of
   its requests continues on the new generator (needs a client plus another init_generator/client)."""
+  if _is_values(case):
+    # C15-F-inband-exception: an ELEMENT of the generator that is itself an Exception instance is read as a marker
+    if any(t[0] == 'exc' for t in case['yields']) and what and ('yielded' in what or 'did not end' in what or 'raised' in what):
+      return 'C15-F-inband-exception'
+    return None
   if 'threads' not in case:
     return None
   ths = case['threads']
@@ -557,6 +631,12 @@ def finding(case, what):
 
 
 def neighbours(case, rng):
+  if _is_values(case):
+    for b in (1, 2, 3, 5):
+      for pf in (1, 2, 3):
+        for mode in ('inline', 'threaded'):
+          yield dict(case, batch=b, prefetch=pf, mode=mode)
+    return
   for k in range(400):
     c = copy.deepcopy(case)
     c['sched'] = sched_spec(rng)
@@ -570,6 +650,18 @@ def neighbours(case, rng):
 
 
 def shrink(case, fails):
+  if _is_values(case):
+    cur = case
+    changed = True
+    while changed:
+      changed = False
+      for i in range(len(cur['yields'])):
+        c = dict(cur, yields=cur['yields'][:i] + cur['yields'][i + 1:])
+        if fails(c) is not None:
+          cur, changed = c, True
+          break
+    return cur
+
   def bad(c):
     """a genuine failure of the candidate (a schedule that no longer fits the smaller case is not one)"""
     w = fails(c)
@@ -743,6 +835,31 @@ def _explore_stage(ctx):
   ctx.notes.append(PROVED_LIVENESS)
 
 
+def _values_coverage(ctx):
+  """every special value the source names, in every role, was run (exit 2 otherwise); what was found is published"""
+  from harness.core import InfraError, REPO
+  lit = lv.special_literals(REPO)
+  ctx.count('values', 'exception classes named by the code', len(lit['classes']))
+  ctx.count('values', 'exceptions the code constructs', len(lit['excs']))
+  ctx.count('values', 'constants the code compares with', len(lit['consts']))
+  ctx.notes.append('special values read off the source: classes ' + ', '.join(lit['classes']) + '; constructed: ' +
+                   '; '.join(f"{t[1]}({', '.join(repr(a[1]) for a in t[2])})" for t in lit['excs']) +
+                   '; constants: ' + lv.json.dumps(lit['consts']))
+  if len(lit['classes']) < 3 or not (lit['excs'] or lit['consts']):
+    raise InfraError(f'the scan of the protocol code found too little to be right: {lit}')
+  missing = []
+  for t in lv.derived_specials(lit) + lv.plain_specials(lit):
+    for role in ('raise', 'yield', 'return'):
+      if role == 'raise' and t[0] != 'exc':
+        continue
+      n = _COV_VAL.get((role, lv.json.dumps(t)), 0)
+      ctx.count('values', f'{role}', 1 if n else 0)
+      if not n:
+        missing.append((role, t))
+  if missing:
+    raise InfraError(f'special values not exercised: {missing[:5]} (+{max(0, len(missing) - 5)})')
+
+
 def extra(ctx):
   import logging
   import threading
@@ -753,6 +870,7 @@ def extra(ctx):
   # enforced on runs whose failed-init cases all pass the oracle (a failing one ends in a verdict, not here)
   if missing and not _COV.get('(runs that failed the oracle)'):
     raise InfraError(f'the runs did not exercise promised arms: {missing}')
+  _values_coverage(ctx)
   _explore_stage(ctx)
   logging.disable(logging.CRITICAL)
   hook = threading.excepthook
